@@ -148,6 +148,8 @@ CONS = [
     ("do_count", "do {n1} = 1, {d1}\n{S}\nend do", "fix one"),
     ("do_step", "do {n1} = {d1}, {n2}, -{d2}\n{S}\nenddo", "fix one"),
     ("do_named", "{n9}: do {n1} = 1, {d1}\n{S}\nif ({n1} > 2) exit {n9}\ncycle {n9}\nend do {n9}", ""),
+    ("do_named_label", "{L1} {n9}: do {n1} = 1, {d1}\n{S}\nend do {n9}", ""),
+    ("if_named_label", "{L1} {n9}: if ({n1} > {d1}) then\n{S}\nend if {n9}", ""),
     ("do_while", "do while ({n1} < {d1})\n{S}\nend do", "fix one"),
     ("do_forever", "do\n{S}\nexit\nend do", "one"),
     ("do_label", "do {L1} {n1} = 1, {d1}\n{S}\n{L1} continue", "fix one"),
